@@ -29,6 +29,7 @@ REQUIRED = ["route.list", "route.one-by-one", "route.scenario", "route.xml", "ro
             "shape-coherence.ShapeGroup", "get_obstacles", "map_obstacles_to_lanelets", "contains_points",
             "kind.adjacent", "kind.crossing", "kind.nested", "provenance.placed-angle-0", "provenance.placed",
             "provenance.translate_rotate", "provenance.deepcopy", "provenance.after-setters",
+            "provenance.source-object-used-before",
             "obstacle-absent-at-query-time", "contains_points.single-point", "route.deferred-index", "route.pending-index", "qshape.u-polygon-around-lanelet-end", "route.deferred-remove",
             "route.translate-before-index"]
 ASSUMPTIONS = ["lanelet polygons are simple (strips with strictly increasing abscissa)",
@@ -324,6 +325,15 @@ def run(ctx):
         # exactly 0.0), as transformed or copied objects; the same coherence is demanded of every one of them
         prov = ["constructed", "placed-angle-0", "placed", "translate_rotate-angle-0", "translate_rotate",
                 "deepcopy", "after-setters"][(i // 4) % 7]
+        if (i // 28) % 2 == 1:
+            # the source object has been USED before (its vertices / planar geometry were asked for): what it may have
+            # computed for itself must not leak into the objects derived from it
+            for m_ in (shp.shapes if kind == "ShapeGroup" else [shp]):
+                _ = m_.shapely_object, getattr(m_, "vertices", None), m_.contains_point(np.array([0.0, 0.0]))
+            if kind == "Rectangle" and (i // 56) % 2 == 1:
+                shp = type(shp)(shp.length, shp.width, shp.center, 0.0)   # axis-aligned in its own frame, off-centre
+                _ = shp.vertices, shp.shapely_object
+            ctx.feature("provenance.source-object-used-before")
         try:
             tr = np.array([rng.uniform(-40, 40), rng.uniform(-40, 40)])
             if prov.startswith("placed"):
